@@ -7,11 +7,29 @@ import HipVerif.Lemmas.ConcCount
 namespace HipVerif.Model.Conc
 open HipVerif.Model
 
-theorem idle_of_not {th : Thread} (h : ¬(th.pc.isSome || th.handles == 0) = true) :
-    th.pc = none ∧ 1 ≤ th.handles := by
-  simp at h
-  obtain ⟨h1, h2⟩ := h
-  exact ⟨h1, by omega⟩
+theorem canUse_iff {th : Thread} : canUse th = true ↔ 1 ≤ th.handles ∨ th.refs ≠ [] := by
+  unfold canUse
+  cases hr : th.refs <;> simp <;> omega
+
+theorem canOwn_iff {s : State} {t : Nat} {th : Thread} :
+    canOwn s t th = true ↔ 1 ≤ th.handles ∧ pinned s t = false := by
+  unfold canOwn
+  cases pinned s t <;> simp <;> omega
+
+theorem PcSide.ofUse {pin : Bool} {th : Thread} {pc : Pc} (hk : pc.k = .clone ∨ pc.k = .count)
+    (hu : 1 ≤ th.handles ∨ th.refs ≠ []) : PcSide pin th pc := by
+  refine ⟨fun _ => hu, ?_, ?_⟩
+  · intro h; rcases hk with hk | hk <;> rcases h with h | h <;> rw [hk] at h <;> simp at h
+  · intro h1 h2; rcases hk with hk | hk
+    · exact absurd hk h1
+    · exact absurd hk h2
+
+theorem PcSide.ofOwn {pin : Bool} {th : Thread} {pc : Pc} (hh : 1 ≤ th.handles) (hp : pin = false) :
+    PcSide pin th pc := ⟨fun _ => Or.inl hh, fun _ => hh, fun _ _ => hp⟩
+
+theorem PcSide.ofDrop {pin : Bool} {th : Thread} {pc : Pc} (hk : pc.k = .drop) (hp : pin = false) :
+    PcSide pin th pc := by
+  refine ⟨?_, ?_, fun _ _ => hp⟩ <;> intro h <;> rcases h with h | h <;> rw [hk] at h <;> simp at h
 
 theorem Wf1.startStep {c : Cfg} (sh : Shape c) {s s' : State} (h : Wf1 c s) {t : Nat} {a : Action}
     (hs : startStep c s t a = some s') : Wf1 c s' := by
@@ -22,54 +40,60 @@ theorem Wf1.startStep {c : Cfg} (sh : Shape c) {s s' : State} (h : Wf1 c s) {t :
   split at hs
   · simp at hs
   rename_i hidle
-  obtain ⟨hpc, hh⟩ := idle_of_not hidle
-  cases a <;> simp only [Option.some.injEq] at hs <;> subst hs
+  have hpc : th.pc = none := by simpa using hidle
+  cases a <;> simp only at hs <;> split at hs <;> try (simp at hs; done)
+  all_goals rename_i hcan
+  all_goals simp only [Option.some.injEq] at hs
+  all_goals subst hs
   · -- read
-    refine h.upd ht rfl rfl rfl rfl ?_ (Nat.le_refl _) ?_ ?_ ?_
+    refine h.upd ht rfl rfl rfl rfl ?_ (Nat.le_refl _) rfl (fun hh => Or.inl hh) ?_ ?_ ?_
     · simp [owned, hpc]
     · intro he; simp [excl, hpc] at he
     · intro he; simp [excl, hpc] at he
     · intro pc hp; simp [hpc] at hp
   · -- clone
-    refine h.upd ht rfl rfl rfl rfl ?_ (Nat.le_refl _) ?_ ?_ ?_
+    refine h.upd ht rfl rfl rfl rfl ?_ (Nat.le_refl _) rfl (fun hh => Or.inl hh) ?_ ?_ ?_
     · simp [owned, inflight, hpc, sh.hincr, norm, localRet]
     · intro he; simp [excl] at he
     · intro he; simp [excl, hpc] at he
     · intro pc hp
       simp at hp; subst hp
-      exact ⟨Or.inl (by simp [sh.hincr, norm]), fun _ => hh⟩
+      exact ⟨Or.inl (by simp [sh.hincr, norm]), PcSide.ofUse (Or.inl rfl) (canUse_iff.1 hcan)⟩
   · -- drop
-    refine h.upd ht rfl rfl rfl rfl ?_ (Nat.le_refl _) ?_ ?_ ?_
+    obtain ⟨hh, hnp⟩ := canOwn_iff.1 hcan
+    refine h.upd ht rfl rfl rfl rfl ?_ (Nat.le_refl _) rfl (fun _ => Or.inr hnp) ?_ ?_ ?_
     · simp [owned, inflight, hpc, sh.hdecr, norm, localRet]; omega
     · intro he; simp [excl, sh.hdecr, norm, localRet] at he
     · intro he; simp [excl, hpc] at he
     · intro pc hp
       simp at hp; subst hp
-      exact ⟨Or.inl (by simp [sh.hdecr, norm]), fun hk => absurd rfl hk⟩
+      exact ⟨Or.inl (by simp [sh.hdecr, norm]), PcSide.ofDrop rfl hnp⟩
   · -- mutate
-    refine h.upd ht rfl rfl rfl rfl ?_ (Nat.le_refl _) ?_ ?_ ?_
+    obtain ⟨hh, hnp⟩ := canOwn_iff.1 hcan
+    refine h.upd ht rfl rfl rfl rfl ?_ (Nat.le_refl _) rfl (fun hh => Or.inl hh) ?_ ?_ ?_
     · simp [owned, inflight, hpc]
     · intro he; simp [excl, sh.huniq, norm, localRet] at he
     · intro he; simp [excl, hpc] at he
     · intro pc hp
       simp at hp; subst hp
-      exact ⟨Or.inl (by simp [sh.huniq, norm]), fun _ => hh⟩
+      exact ⟨Or.inl (by simp [sh.huniq, norm]), PcSide.ofOwn hh hnp⟩
   · -- unwrap
-    refine h.upd ht rfl rfl rfl rfl ?_ (Nat.le_refl _) ?_ ?_ ?_
+    obtain ⟨hh, hnp⟩ := canOwn_iff.1 hcan
+    refine h.upd ht rfl rfl rfl rfl ?_ (Nat.le_refl _) rfl (fun hh => Or.inl hh) ?_ ?_ ?_
     · simp [owned, inflight, hpc]
     · intro he; simp [excl, sh.huniq, norm, localRet] at he
     · intro he; simp [excl, hpc] at he
     · intro pc hp
       simp at hp; subst hp
-      exact ⟨Or.inl (by simp [sh.huniq, norm]), fun _ => hh⟩
+      exact ⟨Or.inl (by simp [sh.huniq, norm]), PcSide.ofOwn hh hnp⟩
   · -- count
-    refine h.upd ht rfl rfl rfl rfl ?_ (Nat.le_refl _) ?_ ?_ ?_
+    refine h.upd ht rfl rfl rfl rfl ?_ (Nat.le_refl _) rfl (fun hh => Or.inl hh) ?_ ?_ ?_
     · simp [owned, inflight, hpc]
     · intro he; simp [excl] at he
     · intro he; simp [excl, hpc] at he
     · intro pc hp
       simp at hp; subst hp
-      exact ⟨Or.inl (by simp [sh.hget, norm]), fun _ => hh⟩
+      exact ⟨Or.inl (by simp [sh.hget, norm]), PcSide.ofUse (Or.inr rfl) (canUse_iff.1 hcan)⟩
 
 theorem Wf1.sendStep {c : Cfg} {s s' : State} (h : Wf1 c s) {t u : Nat}
     (hs : sendStep s t u = some s') : Wf1 c s' := by
@@ -80,10 +104,41 @@ theorem Wf1.sendStep {c : Cfg} {s s' : State} (h : Wf1 c s) {t u : Nat}
     · simp at hs
     · rename_i hc
       simp at hc
+      obtain ⟨⟨⟨htu, hpt⟩, hpu⟩, hcan'⟩ := hc
+      obtain ⟨hh, hnp⟩ := canOwn_iff.1 hcan'
+      simp only [Option.some.injEq] at hs
+      subst hs
+      exact h.send ht hu htu hpt hpu hh hnp _ _ _ rfl rfl
+  · simp at hs
+
+theorem Wf1.borrowStep {c : Cfg} {s s' : State} (h : Wf1 c s) {t u : Nat}
+    (hs : borrowStep s t u = some s') : Wf1 c s' := by
+  unfold Conc.borrowStep at hs
+  split at hs
+  · rename_i th uh ht hu
+    split at hs
+    · simp at hs
+    · rename_i hc
+      simp at hc
       obtain ⟨⟨⟨htu, hpt⟩, hpu⟩, hh⟩ := hc
       simp only [Option.some.injEq] at hs
       subst hs
-      exact h.send ht hu htu hpt hpu (by omega) _ _ _ rfl rfl
+      exact h.borrow ht hu htu hpt hpu (by omega) _ _ rfl
+  · simp at hs
+
+theorem Wf1.unborrowStep {c : Cfg} {s s' : State} (h : Wf1 c s) {t u : Nat}
+    (hs : unborrowStep s t u = some s') : Wf1 c s' := by
+  unfold Conc.unborrowStep at hs
+  split at hs
+  · rename_i th uh ht hu
+    split at hs
+    · simp at hs
+    · rename_i hc
+      simp at hc
+      obtain ⟨⟨⟨htu, hpt⟩, hpu⟩, hm'⟩ := hc
+      simp only [Option.some.injEq] at hs
+      subst hs
+      exact h.unborrow ht hu htu hpt hpu hm' _ _ _ rfl rfl
   · simp at hs
 
 /-- Return of a method that neither frees nor changes the owned handles. -/
@@ -91,8 +146,9 @@ theorem Wf1.retStep {c : Cfg} {s s' : State} (h : Wf1 c s) {t : Nat} {th th' : T
     (ht : s.thr[t]? = some th) (hthr : s'.thr = s.thr.set t th') (hhist : s'.hist = s.hist)
     (hlast : s'.last = s.last) (hfreed : s'.freed = s.freed)
     (hown : owned th' = owned th) (hcoh : th'.coh = th.coh) (hpc : th'.pc = none)
+    (hrefs : th'.refs = th.refs) (hhand : th.handles ≤ th'.handles)
     (hunexcl : excl th = true → 1 ≤ owned th) : Wf1 c s' := by
-  refine h.upd ht hthr hhist hlast hfreed hown (by omega) ?_ ?_ ?_
+  refine h.upd ht hthr hhist hlast hfreed hown (by omega) hrefs (fun hh => Or.inl (by omega)) ?_ ?_ ?_
   · intro he; simp [excl, hpc] at he
   · intro he _; exact hunexcl he
   · intro pc hp; simp [hpc] at hp
@@ -107,10 +163,9 @@ theorem Wf1.microStep {c : Cfg} (sh : Shape c) {s s' : State} (h : Wf1 c s) {t c
   · simp at hs
   rename_i pc hpc
   obtain ⟨k, code, old⟩ := pc
-  obtain ⟨hok, hh⟩ := h.pcok t th _ ht hpc
+  obtain ⟨hok, hside⟩ := h.pcok t th _ ht hpc
   cases k
   · -- clone
-    have hh1 : 1 ≤ th.handles := hh (by simp)
     simp only [PcOk, sh.hincr, List.tail] at hok
     rcases hok with rfl | rfl | hl | hl
     · -- the initial load
@@ -118,13 +173,13 @@ theorem Wf1.microStep {c : Cfg} (sh : Shape c) {s s' : State} (h : Wf1 c s) {t c
       split at hs
       · rename_i hch
         simp only [Option.some.injEq] at hs; subst hs
-        refine h.upd ht rfl rfl rfl rfl ?_ (by simpa using hch.1) ?_ ?_ ?_
+        refine h.upd ht rfl rfl rfl rfl ?_ (by simpa using hch.1) (by simp) (fun hh => Or.inl (by simpa using hh)) ?_ ?_ ?_
         · simp [owned, inflight, hpc, norm, localRet]
         · intro he; simp [excl] at he
         · intro he; simp [excl, hpc] at he
         · intro pc hp
           simp at hp; subst hp
-          exact ⟨Or.inr (Or.inl (by simp [sh.hincr, norm])), fun _ => by simpa using hh1⟩
+          exact ⟨Or.inr (Or.inl (by simp [sh.hincr, norm])), hside.congr rfl (by simp) (by simp) id⟩
       · simp at hs
     · -- the CAS loop
       dsimp only at hs
@@ -135,38 +190,38 @@ theorem Wf1.microStep {c : Cfg} (sh : Shape c) {s s' : State} (h : Wf1 c s) {t c
           split at hs
           · rename_i hval
             simp only [Option.some.injEq] at hs; subst hs
-            exact h.casSucc ht hpc (by simp [localRet]) hh1 hval
+            exact h.casSucc ht hpc (by simp [localRet]) hval
               (Nat.lt_of_lt_of_le hlt sh.hbound) _
           · simp at hs
         · -- failure: a load
           split at hs
           · rename_i i hch
             simp only [Option.some.injEq] at hs; subst hs
-            refine h.upd ht rfl rfl rfl rfl ?_ (by simpa using hch.1) ?_ ?_ ?_
+            refine h.upd ht rfl rfl rfl rfl ?_ (by simpa using hch.1) (by simp) (fun hh => Or.inl (by simpa using hh)) ?_ ?_ ?_
             · simp [owned, inflight, hpc, localRet]
             · intro he; simp [excl] at he
             · intro he; simp [excl, hpc] at he
             · intro pc hp
               simp at hp; subst hp
-              exact ⟨Or.inr (Or.inl (by simp [sh.hincr])), fun _ => by simpa using hh1⟩
+              exact ⟨Or.inr (Or.inl (by simp [sh.hincr])), hside.congr rfl (by simp) (by simp) id⟩
           · simp at hs
       · -- loop exit
         split at hs
         · simp only [Option.some.injEq] at hs; subst hs
-          refine h.upd ht rfl rfl rfl rfl ?_ (Nat.le_refl _) ?_ ?_ ?_
+          refine h.upd ht rfl rfl rfl rfl ?_ (Nat.le_refl _) (by simp) (fun hh => Or.inl (by simpa using hh)) ?_ ?_ ?_
           · simp [owned, inflight, hpc, norm, localRet]
           · intro he; simp [excl] at he
           · intro he; simp [excl, hpc] at he
           · intro pc hp
             simp at hp; subst hp
-            exact ⟨Or.inr (Or.inr (Or.inr (by simp [norm, localRet]))), fun _ => hh1⟩
+            exact ⟨Or.inr (Or.inr (Or.inr (by simp [norm, localRet]))), hside.congr rfl (by simp) (by simp) id⟩
         · simp at hs
     · -- CAS succeeded, local code returning `Done`
       rcases localRet_cases hl with ⟨tl, rfl⟩ | ⟨o, rest, rfl, hr⟩
       · dsimp only at hs
         split at hs
         · simp only [finish, Option.some.injEq] at hs; subst hs
-          refine h.retStep ht rfl rfl rfl rfl ?_ rfl rfl ?_
+          refine h.retStep ht rfl rfl rfl rfl ?_ rfl rfl (by simp) (by simp) ?_
           · simp [owned, inflight, hpc, localRet]
           · intro he; simp [excl, hpc] at he
         · simp at hs
@@ -180,7 +235,7 @@ theorem Wf1.microStep {c : Cfg} (sh : Shape c) {s s' : State} (h : Wf1 c s) {t c
       · dsimp only at hs
         split at hs
         · simp only [finish, Option.some.injEq] at hs; subst hs
-          refine h.retStep ht rfl rfl rfl rfl ?_ rfl rfl ?_
+          refine h.retStep ht rfl rfl rfl rfl ?_ rfl rfl (by simp) (by simp) ?_
           · simp [owned, inflight, hpc, localRet]
           · intro he; simp [excl, hpc] at he
         · simp at hs
@@ -209,7 +264,7 @@ theorem Wf1.microStep {c : Cfg} (sh : Shape c) {s s' : State} (h : Wf1 c s) {t c
         · simp only [finish, Option.some.injEq] at hs; subst hs
           have hx : excl th = true := by simp [excl, hpc, localRet]
           have hown := (h.X t th ht hx).2.1
-          refine h.free ht hx rfl rfl ?_ rfl
+          refine h.free ht hx rfl rfl ?_ rfl (by simp)
           simp [owned, inflight, hpc, localRet, exclOwn] at hown
           simp [owned, inflight, hown]
         · simp at hs
@@ -223,7 +278,7 @@ theorem Wf1.microStep {c : Cfg} (sh : Shape c) {s s' : State} (h : Wf1 c s) {t c
       · dsimp only at hs
         split at hs
         · simp only [finish, Option.some.injEq] at hs; subst hs
-          refine h.retStep ht rfl rfl rfl rfl ?_ rfl rfl ?_
+          refine h.retStep ht rfl rfl rfl rfl ?_ rfl rfl (by simp) (by simp) ?_
           · simp [owned, inflight, hpc, localRet]
           · intro he; simp [excl, hpc, localRet] at he
         · simp at hs
@@ -233,7 +288,6 @@ theorem Wf1.microStep {c : Cfg} (sh : Shape c) {s s' : State} (h : Wf1 c s) {t c
           exact h.fenceStep sh ht hpc _
         · simp at hs
   · -- mutate
-    have hh1 : 1 ≤ th.handles := hh (by simp)
     simp only [PcOk, sh.huniq] at hok
     rcases hok with rfl | ⟨b, hl⟩
     · -- the load of `is_unique`
@@ -241,8 +295,9 @@ theorem Wf1.microStep {c : Cfg} (sh : Shape c) {s s' : State} (h : Wf1 c s) {t c
       split at hs
       · rename_i hch
         simp only [Option.some.injEq] at hs; subst hs
+        have hh1 : 1 ≤ th.handles := hside.2.1 (by simp)
         have hownth : owned th = th.handles := by simp [owned, inflight, hpc]
-        refine h.upd ht rfl rfl rfl rfl ?_ (by simpa using hch.1) ?_ ?_ ?_
+        refine h.upd ht rfl rfl rfl rfl ?_ (by simpa using hch.1) (by simp) (fun hh => Or.inl (by simpa using hh)) ?_ ?_ ?_
         · simp [owned, inflight, hpc]
         · intro he
           right
@@ -254,9 +309,12 @@ theorem Wf1.microStep {c : Cfg} (sh : Shape c) {s s' : State} (h : Wf1 c s) {t c
               cases hm : s.hist[ch]? with
               | none => rfl
               | some m =>
-                have := h.J t th ht (by omega) ch m hm hch.1
+                exfalso
                 simp [State.msgAt, hm] at hv
-                omega
+                have hnp : pinned s t = false := hside.2.2 (by simp) (by simp)
+                rcases h.J ch m hm hv t th ht (by omega) with h1 | ⟨w, wh, hw, hmem, _⟩
+                · omega
+                · exact not_mem_of_not_pinned hnp hw hmem
             rw [hlast] at hv
             have hle := owned_le_total s t th ht
             have htr := h.track (by omega)
@@ -265,7 +323,7 @@ theorem Wf1.microStep {c : Cfg} (sh : Shape c) {s s' : State} (h : Wf1 c s) {t c
         · intro he; simp [excl, hpc, localRet] at he
         · intro pc hp
           simp at hp; subst hp
-          refine ⟨Or.inr ?_, fun _ => by simpa using hh1⟩
+          refine ⟨Or.inr ?_, hside.congr rfl (by simp) (by simp) id⟩
           simp only [norm]
           split
           · exact ⟨_, localRet_armCode _ _ sh.huthn⟩
@@ -275,12 +333,14 @@ theorem Wf1.microStep {c : Cfg} (sh : Shape c) {s s' : State} (h : Wf1 c s) {t c
       · dsimp only at hs
         split at hs
         · cases b <;> simp only [finish, Option.some.injEq] at hs <;> subst hs
-          · refine h.retStep ht rfl rfl rfl rfl ?_ rfl rfl ?_
+          · refine h.retStep ht rfl rfl rfl rfl ?_ rfl rfl (by simp) (by simp) ?_
             · simp [owned, inflight, hpc]
             · intro he; simp [excl, hpc, localRet] at he
-          · refine h.retStep ht rfl rfl rfl rfl ?_ rfl rfl ?_
+          · refine h.retStep ht rfl rfl rfl rfl ?_ rfl rfl (by simp) (by simp) ?_
             · simp [owned, inflight, hpc]
-            · intro _; simp [owned]; omega
+            · intro _
+              have hh1 : 1 ≤ th.handles := hside.2.1 (by simp)
+              simp [owned]; omega
         · simp at hs
       · dsimp only at hs
         split at hs
@@ -288,15 +348,15 @@ theorem Wf1.microStep {c : Cfg} (sh : Shape c) {s s' : State} (h : Wf1 c s) {t c
           exact h.fenceStep sh ht hpc _
         · simp at hs
   · -- unwrap
-    have hh1 : 1 ≤ th.handles := hh (by simp)
     simp only [PcOk, sh.huniq] at hok
     rcases hok with rfl | ⟨b, hl⟩
     · dsimp only at hs
       split at hs
       · rename_i hch
         simp only [Option.some.injEq] at hs; subst hs
+        have hh1 : 1 ≤ th.handles := hside.2.1 (by simp)
         have hownth : owned th = th.handles := by simp [owned, inflight, hpc]
-        refine h.upd ht rfl rfl rfl rfl ?_ (by simpa using hch.1) ?_ ?_ ?_
+        refine h.upd ht rfl rfl rfl rfl ?_ (by simpa using hch.1) (by simp) (fun hh => Or.inl (by simpa using hh)) ?_ ?_ ?_
         · simp [owned, inflight, hpc]
         · intro he
           right
@@ -307,9 +367,12 @@ theorem Wf1.microStep {c : Cfg} (sh : Shape c) {s s' : State} (h : Wf1 c s) {t c
               cases hm : s.hist[ch]? with
               | none => rfl
               | some m =>
-                have := h.J t th ht (by omega) ch m hm hch.1
+                exfalso
                 simp [State.msgAt, hm] at hv
-                omega
+                have hnp : pinned s t = false := hside.2.2 (by simp) (by simp)
+                rcases h.J ch m hm hv t th ht (by omega) with h1 | ⟨w, wh, hw, hmem, _⟩
+                · omega
+                · exact not_mem_of_not_pinned hnp hw hmem
             rw [hlast] at hv
             have hle := owned_le_total s t th ht
             have htr := h.track (by omega)
@@ -318,7 +381,7 @@ theorem Wf1.microStep {c : Cfg} (sh : Shape c) {s s' : State} (h : Wf1 c s) {t c
         · intro he; simp [excl, hpc, localRet] at he
         · intro pc hp
           simp at hp; subst hp
-          refine ⟨Or.inr ?_, fun _ => by simpa using hh1⟩
+          refine ⟨Or.inr ?_, hside.congr rfl (by simp) (by simp) id⟩
           simp only [norm]
           split
           · exact ⟨_, localRet_armCode _ _ sh.huthn⟩
@@ -328,12 +391,12 @@ theorem Wf1.microStep {c : Cfg} (sh : Shape c) {s s' : State} (h : Wf1 c s) {t c
       · dsimp only at hs
         split at hs
         · cases b <;> simp only [finish, Option.some.injEq] at hs <;> subst hs
-          · refine h.retStep ht rfl rfl rfl rfl ?_ rfl rfl ?_
+          · refine h.retStep ht rfl rfl rfl rfl ?_ rfl rfl (by simp) (by simp) ?_
             · simp [owned, inflight, hpc]
             · intro he; simp [excl, hpc, localRet] at he
           · have hx : excl th = true := by simp [excl, hpc, localRet]
             have hown := (h.X t th ht hx).2.1
-            refine h.free ht hx rfl rfl ?_ rfl
+            refine h.free ht hx rfl rfl ?_ rfl (by simp)
             simp [owned, inflight, hpc, exclOwn] at hown
             simp [owned, inflight, hown]
         · simp at hs
@@ -343,26 +406,25 @@ theorem Wf1.microStep {c : Cfg} (sh : Shape c) {s s' : State} (h : Wf1 c s) {t c
           exact h.fenceStep sh ht hpc _
         · simp at hs
   · -- count
-    have hh1 : 1 ≤ th.handles := hh (by simp)
     simp only [PcOk, sh.hget] at hok
     rcases hok with rfl | ⟨b, hl⟩
     · dsimp only at hs
       split at hs
       · rename_i hch
         simp only [Option.some.injEq] at hs; subst hs
-        refine h.upd ht rfl rfl rfl rfl ?_ (by simpa using hch.1) ?_ ?_ ?_
+        refine h.upd ht rfl rfl rfl rfl ?_ (by simpa using hch.1) (by simp) (fun hh => Or.inl (by simpa using hh)) ?_ ?_ ?_
         · simp [owned, inflight, hpc]
         · intro he; simp [excl] at he
         · intro he; simp [excl, hpc] at he
         · intro pc hp
           simp at hp; subst hp
-          exact ⟨Or.inr ⟨sh.gk, by simp [norm, localRet]⟩, fun _ => by simpa using hh1⟩
+          exact ⟨Or.inr ⟨sh.gk, by simp [norm, localRet]⟩, hside.congr rfl (by simp) (by simp) id⟩
       · simp at hs
     · rcases localRet_cases hl with ⟨tl, rfl⟩ | ⟨o, rest, rfl, hr⟩
       · dsimp only at hs
         split at hs
         · simp only [finish, Option.some.injEq] at hs; subst hs
-          refine h.retStep ht rfl rfl rfl rfl ?_ rfl rfl ?_
+          refine h.retStep ht rfl rfl rfl rfl ?_ rfl rfl (by simp) (by simp) ?_
           · simp [owned, inflight, hpc]
           · intro he; simp [excl, hpc] at he
         · simp at hs
@@ -379,6 +441,8 @@ theorem Wf1.step {c : Cfg} (sh : Shape c) {s s' : State} (h : Wf1 c s) (l : Labe
   | start t a => exact h.startStep sh hs
   | micro t ch => exact h.microStep sh hs
   | send t u => exact h.sendStep hs
+  | borrow t u => exact h.borrowStep hs
+  | unborrow t u => exact h.unborrowStep hs
 
 theorem owned_init (n : Nat) : owned (Thread.init n) = n := by simp [owned, inflight, Thread.init]
 
@@ -397,11 +461,15 @@ theorem Wf1.init {c : Cfg} (hs : List Nat) (h1 : 1 ≤ hs.sum) (h2 : hs.sum ≤ 
     simp only [Conc.init, List.getElem?_map, Option.map_eq_some_iff] at ht
     obtain ⟨n, _, rfl⟩ := ht
     rfl
-  refine ⟨?_, ?_, ?_, ?_, ?_, ?_, ?_⟩
+  refine ⟨?_, ?_, ?_, ?_, ?_, ?_, ?_, ?_⟩
   · intro _; rw [total_init]; simp [Conc.init]; omega
   · intro _; simp [Conc.init]; omega
-  · intro t th _ _ i m hi; simp [Conc.init] at hi
+  · intro i m hi; simp [Conc.init] at hi
   · intro t th pc ht hp; rw [hpcn t th ht] at hp; simp at hp
+  · intro w wh u hw hm
+    simp only [Conc.init, List.getElem?_map, Option.map_eq_some_iff] at hw
+    obtain ⟨n, _, rfl⟩ := hw
+    simp [Thread.init] at hm
   · intro t th ht he; simp [excl, hpcn t th ht] at he
   · simp [Conc.init]
   · rw [total_init]; intro h0; omega
